@@ -34,12 +34,15 @@ def case(draw):
 
 
 def compare(spec, bucket='C03'):
-    o1, es1, ex1 = blocks.solve(spec, reduction=True)
-    o2, es2, ex2 = blocks.solve(spec, reduction=False)
+    steady = bool(spec.get('steady'))
+    o1, es1, ex1 = blocks.solve(spec, reduction=True, steady=steady)
+    o2, es2, ex2 = blocks.solve(spec, reduction=False, steady=steady)
     labels = ['on:' + o1, 'off:' + o2]
     if o1 != 'ok' or o2 != 'ok':
         if 'ConvergenceError' in (o1, o2):
             raise Reject('no convergence (%s/%s)' % (o1, o2))
+        if steady and ('NoEquilibriumError' in (o1, o2) or 'ValueError' in (o1, o2)):
+            raise Reject('steady-state search failed (%s/%s)' % (o1, o2))
         if o1 == o2:
             raise Reject('both settings raise ' + o1)
         raise Violation(bucket + '/outcome-differs',
@@ -55,11 +58,19 @@ def compare(spec, bucket='C03'):
         a, b = t1[name], t2[name]
         if len(a) != len(b):
             raise Violation(bucket + '/length', '%s: %d values with reduction, %d without' % (name, len(a), len(b)))
-        if a[0] != b[0]:
+        if steady:
+            # k=0 comes out of the steady-state search (tolerance 1e-4 relative): compare with that tolerance
+            sc0 = max([1.0] + [abs(t1[n][0]) for n in t1] + [abs(t2[n][0]) for n in t2])
+            if not abs(a[0] - b[0]) <= 20.0 * 1e-4 * sc0 / (1.0 - q):
+                raise Violation(bucket + '/k0-steady', '%s at k=0 after the steady-state search: %r with reduction, %r without' %
+                                (name, a[0], b[0]))
+        elif a[0] != b[0]:
             raise Violation(bucket + '/k0', '%s at k=0: %r with reduction, %r without' % (name, a[0], b[0]))
     for k in range(1, T + 1):
         scale = max([1.0] + [abs(t1[n][k]) for n in t1] + [abs(t2[n][k]) for n in t2])
         bound = 40.0 * tol * scale / (1.0 - q)
+        if steady:
+            bound += 20.0 * 1e-4 * scale / (1.0 - q)
         for name in t1:
             if not abs(t1[name][k] - t2[name][k]) <= bound:
                 raise Violation(bucket + '/value', '%s at k=%d: %r with reduction, %r without (bound %.3g)' %
@@ -84,7 +95,18 @@ def run(spec):
     return {'nontrivial': bool(alias_names) and bool(moved_real) and refs_alias, 'labels': labels}
 
 
-FAMILIES = [Family('on-vs-off', case, run, quick=6000, thorough=200000)]
+@st.composite
+def steady_case(draw):
+    spec = draw(blocks.system(n_sim=(1, 5), q_hi=50, lags=(1, 3), exos=(0, 2), consts=(0, 2), aliases=(1, 3),
+                              leaves=(0, 3), horizon=(1, 3), ic_prob=0, nonlinear=False, tols=('1e-8',), time_terms=False))
+    spec['steady'] = True
+    return spec
+
+
+FAMILIES = [
+    Family('on-vs-off', case, run, quick=6000, thorough=200000),
+    Family('steady-start', steady_case, run, quick=600, thorough=20000),
+]
 
 MANIFEST_INFO = {
     'level_text': 'Differential exploration: every generated system is solved with reduction on and off and all series are '
